@@ -13,7 +13,11 @@ EXPLANATION = (
     "block_insert sets, and every 'false' answer is guarded by that test; (3) insert_hash and "
     "check_hash select the block through the same expression; (4) each typed insert/check pair "
     "hashes the same bytes with seed 0; (5) write/read/merge preserve the bits (verbatim copy, "
-    "size guards, OR-merge under an equal-size guard); (6) constants and shapes equal the Parquet "
+    "size guards, OR-merge under an equal-size guard); create, executed for every requested size 0..200, "
+    "yields a zeroed buffer of whole 32-byte blocks described exactly by num_bytes/num_blocks; insert "
+    "writes and check reads all 8 words of the block; every typed insert reaches insert_hash and the early "
+    "exits of insert_hash/check_hash coincide; XXH64 consumes its input in the reference schedule for every "
+    "length 0..200; (6) constants and shapes equal the Parquet "
     "split-block Bloom filter specification (SALT words, 8 words per 32-byte block, bit from the "
     "top 5 bits of salt*key, key = low 32 bits, block index = ((h>>32)*n)>>32) and XXH64's "
     "prime/rotation/shift constants (call-site-expanded (operator, constant) fingerprint). "
